@@ -115,14 +115,14 @@ def _check_path(eng, path, p, L, res, defined, msmset):
         res['discharged'] += 1
     res.count('unknown_ok' if not isdef else 'defined_ok')
     if not bad and (num % 97 == 3 or num in (0, 4095, 1070, 1229, 1230)) and eng.check3() == 'sat':
-        mdl = eng.solver.model()
+        mdl = eng.model()
         pl = bytes(mdl.eval(sym.byte_term(e), model_completion=True).as_long() for e in p.e)
         res['witnesses'].append({'kind': 'construct', 'payload': pl.hex(), 'checks': ['identity', 'stub', 'ismsm', 'total']})
 
 
 def cex(eng, p, res, checks, why):
     if eng.check3() == 'sat':
-        mdl = eng.solver.model()
+        mdl = eng.model()
         pl = bytes(mdl.eval(sym.byte_term(e), model_completion=True).as_long() for e in p.e)
         res['cex'].append({'kind': 'construct', 'payload': pl.hex(), 'checks': checks, 'why': why,
                            'dedup': why[:60] + pl[:3].hex()})
@@ -190,7 +190,7 @@ def run_job(spec):
                     cex(eng, d.p, res, ['fields', 'decodable'], f"{ident} decoded as a stub after a message without definition")
                 for c in res['cex'][n0:]:
                     if eng.check3() == 'sat':
-                        c['history'] = [bytes(eng.solver.model().eval(sym.byte_term(e), model_completion=True).as_long() for e in H['u'].e).hex()]
+                        c['history'] = [bytes(eng.model().eval(sym.byte_term(e), model_completion=True).as_long() for e in H['u'].e).hex()]
                         c['checks'] = list(set(c['checks']) | {'fields', 'decodable'})
             res.absorb_engine(eng)
         return res
